@@ -643,3 +643,296 @@ Section GasSec.
     intros H. injection H as <-. reflexivity.
   Qed.
 End GasSec.
+
+(** * Netmap (Model/Netmap.v): newEpoch, addPeer, addPeerIR, addNode,
+      deleteNode, updateState, updateStateIR, updateSnapshotCount,
+      subscribeForNewEpoch, setConfig *)
+From Verif Require Model.Netmap.
+Section NetmapSec.
+  Variable acc : bytes -> bytes.            (* contract.CreateStandardAccount *)
+  Variable sub_ok : bytes -> bool.
+  Variable sub_accepts : bytes -> Z -> bool.
+  Notation nmstep := (Netmap.nstep sub_ok sub_accepts).
+
+  Definition nm_key (o : Netmap.nop) : mkey :=
+    match o with
+    | Netmap.NewEpoch _ => (KNetmap, "newEpoch", 1%nat)
+    | Netmap.AddPeer _ => (KNetmap, "addPeer", 1%nat)
+    | Netmap.AddPeerIR _ => (KNetmap, "addPeerIR", 1%nat)
+    | Netmap.AddNode _ => (KNetmap, "addNode", 1%nat)
+    | Netmap.DeleteNode _ => (KNetmap, "deleteNode", 1%nat)
+    | Netmap.UpdateState _ _ => (KNetmap, "updateState", 2%nat)
+    | Netmap.UpdateStateIR _ _ => (KNetmap, "updateStateIR", 2%nat)
+    | Netmap.UpdateSnapshotCount _ => (KNetmap, "updateSnapshotCount", 1%nat)
+    | Netmap.Subscribe _ => (KNetmap, "subscribeForNewEpoch", 1%nat)
+    | Netmap.SetConfig _ _ => (KNetmap, "setConfig", 3%nat)
+    end.
+
+  (** The node key an operation asks CheckWitness about, and the position of
+      the argument that carries it. *)
+  Definition nm_node_key (o : Netmap.nop) : option (nat * bytes) :=
+    match o with
+    | Netmap.AddPeer info => match Netmap.slice 2 33 info with Halt k => Some (0%nat, k) | Fault => None end
+    | Netmap.AddNode n => Some (0%nat, Netmap.n2key n)
+    | Netmap.UpdateState _ k => Some (1%nat, k)
+    | _ => None
+    end.
+
+  (** [wit]: of the key the operation names, the ones whose account is
+      witnessed; [alpha]: the verdict of [RAlpha]. *)
+  Definition to_nmctx (c : ctx) (a : args) (o : Netmap.nop) (height : Z) : Netmap.nctx :=
+    Netmap.mkNC
+      (match nm_node_key o with
+       | Some (_, k) => if witnessed c (acc k) then [k] else []
+       | None => []
+       end)
+      (alpha_of c a) height.
+
+  Lemma to_nmctx_sound c a o h i k :
+    nm_node_key o = Some (i, k) ->
+    Netmap.check_witness (to_nmctx c a o h) k = witnessed c (acc k) /\
+    Netmap.alpha (to_nmctx c a o h) = eval_req c a RAlpha.
+  Proof.
+    intros Hk. split; [|reflexivity]. unfold Netmap.check_witness, to_nmctx. cbn [Netmap.wit]. rewrite Hk.
+    destruct (witnessed c (acc k)); cbn [existsb]; [rewrite bytes_eqb_refl|]; reflexivity.
+  Qed.
+
+  Lemma inert_Netmap s c a o r h :
+    (forall i k, nm_node_key o = Some (i, k) -> arg_princ a i = acc k) ->
+    required (nm_key o) = Some r -> eval_req c a r = false ->
+    nmstep s (to_nmctx c a o h, o) = (s, false, []).
+  Proof.
+    intros Hp Hr He. unfold Netmap.nstep. cbn [fst snd].
+    destruct o as [e|info|info|n|k|st k|st k|n|hh|k v]; vm_compute in Hr; injection Hr as <-;
+      cbn [eval_req] in He; unfold Netmap.nexec.
+    - change (alpha_of c a = false) in He. cbn [to_nmctx Netmap.alpha]. rewrite He. reflexivity.
+    - (* addPeer *)
+      destruct (Netmap.slice 2 33 info) as [k|] eqn:Ek; cbn [obind]; [|reflexivity].
+      assert (Hnk : nm_node_key (Netmap.AddPeer info) = Some (0%nat, k)) by (cbn [nm_node_key]; rewrite Ek; reflexivity).
+      destruct (to_nmctx_sound c a _ h _ _ Hnk) as [Hw Ha]. rewrite Hw, Ha. cbn [eval_req].
+      rewrite (Hp _ _ Hnk) in He. apply andb_false_iff in He as [E|E]; rewrite E; [reflexivity|].
+      destruct (witnessed c (acc k)); reflexivity.
+    - change (alpha_of c a = false) in He. cbn [to_nmctx Netmap.alpha]. rewrite He. reflexivity.
+    - (* addNode *)
+      destruct (Netmap.n2st n =? Netmap.Online)%Z; [|reflexivity]. cbn [oassert obind].
+      destruct (Netmap.pk_len (Netmap.n2key n)); [|reflexivity]. cbn [oassert obind].
+      assert (Hnk : nm_node_key (Netmap.AddNode n) = Some (0%nat, Netmap.n2key n)) by reflexivity.
+      destruct (to_nmctx_sound c a _ h _ _ Hnk) as [Hw Ha]. rewrite Hw, Ha. cbn [eval_req].
+      rewrite (Hp _ _ Hnk) in He. apply andb_false_iff in He as [E|E]; rewrite E; [reflexivity|].
+      destruct (witnessed c (acc (Netmap.n2key n))); reflexivity.
+    - change (alpha_of c a = false) in He. cbn [to_nmctx Netmap.alpha]. rewrite He.
+      destruct (Netmap.pk_len k); reflexivity.
+    - (* updateState *)
+      destruct (Netmap.pk_len k); [|reflexivity]. cbn [oassert obind].
+      assert (Hnk : nm_node_key (Netmap.UpdateState st k) = Some (1%nat, k)) by reflexivity.
+      destruct (to_nmctx_sound c a _ h _ _ Hnk) as [Hw Ha]. rewrite Hw, Ha. cbn [eval_req].
+      rewrite (Hp _ _ Hnk) in He. apply andb_false_iff in He as [E|E]; rewrite E; [reflexivity|].
+      destruct (witnessed c (acc k)); reflexivity.
+    - change (alpha_of c a = false) in He. cbn [to_nmctx Netmap.alpha]. rewrite He. reflexivity.
+    - change (alpha_of c a = false) in He. cbn [to_nmctx Netmap.alpha]. rewrite He. reflexivity.
+    - change (alpha_of c a = false) in He. cbn [to_nmctx Netmap.alpha]. rewrite He. reflexivity.
+    - change (alpha_of c a = false) in He. cbn [to_nmctx Netmap.alpha]. rewrite He. reflexivity.
+  Qed.
+End NetmapSec.
+
+(** * NNS (Model/NNS.v): register, registerTLD, transfer, renew (both
+      overloads: [RenewDefault] is [Renew name 1]), setAdmin, addRecord,
+      setRecord, deleteRecords, updateSOA, setPrice *)
+From Verif Require Model.NNS Proofs.NNSBase Proofs.NNSAuth.
+Section NNSSec.
+  Variable hash : bytes -> bytes.
+  Variable valid_name : bytes -> bool.
+  Variable valid_data : Z -> bytes -> bool.
+  Variable str_ok : bytes -> bool.
+  Notation nnsstep := (NNS.nstep hash valid_name valid_data str_ok).
+  Notation authorised := (NNSAuth.authorised hash valid_name).
+
+  (** [wit]: the witnessed script hashes; [committee]: the committee account. *)
+  Definition to_nnsctx (c : ctx) (a : args) (now : Z) (rejecting : list bytes) : NNS.nctx :=
+    NNS.mkNC now (wit_list c) (ch_committee (a_chain a)) rejecting.
+
+  Lemma nns_wit_sound c a now rj h : NNSBase.wit_of (to_nnsctx c a now rj) h = witnessed c h.
+  Proof. apply wit_list_sound. Qed.
+  Lemma nns_cmt_sound c a now rj : NNSBase.cmt (to_nnsctx c a now rj) = eval_req c a RCommittee.
+  Proof. apply wit_list_sound. Qed.
+  Lemma to_nnsctx_sound c a now rj h :
+    NNSBase.wit_of (to_nnsctx c a now rj) h = witnessed c h /\
+    NNSBase.cmt (to_nnsctx c a now rj) = eval_req c a RCommittee.
+  Proof. split; [apply nns_wit_sound|apply nns_cmt_sound]. Qed.
+
+  Definition nns_keys (o : NNS.nop) : list mkey :=
+    match o with
+    | NNS.Register _ _ _ _ _ _ _ => [(KNNS, "register", 7%nat)]
+    | NNS.RegisterTLD _ _ _ _ _ _ => [(KNNS, "registerTLD", 6%nat)]
+    | NNS.Transfer _ _ => [(KNNS, "transfer", 3%nat)]
+    | NNS.Renew _ _ => [(KNNS, "renew", 2%nat); (KNNS, "renew", 1%nat)]
+    | NNS.SetAdmin _ _ => [(KNNS, "setAdmin", 2%nat)]
+    | NNS.AddRecord _ _ _ => [(KNNS, "addRecord", 3%nat)]
+    | NNS.SetRecord _ _ _ _ => [(KNNS, "setRecord", 4%nat)]
+    | NNS.DeleteRecords _ _ => [(KNNS, "deleteRecords", 2%nat)]
+    | NNS.UpdateSOA _ _ _ _ _ _ => [(KNNS, "updateSOA", 6%nat)]
+    | NNS.SetPrice _ => [(KNNS, "setPrice", 1%nat)]
+    | _ => []   (* safe methods *)
+    end.
+
+  Definition ob (o : option bytes) : bytes := match o with Some b => b | None => [] end.
+
+  (** The facts of a call describe the NameState the guard reads. *)
+  Definition ns_facts (a : args) (ns : NNS.namestate) : Prop :=
+    a_owner a = ob (NNS.ns_owner ns) /\ a_admin a = ob (NNS.ns_admin ns).
+
+  Definition nns_facts (nc : NNS.nctx) (s : NNS.nstate) (a : args) (o : NNS.nop) : Prop :=
+    match o with
+    | NNS.AddRecord name _ _ | NNS.SetRecord name _ _ _ | NNS.DeleteRecords name _ =>
+        forall ns, NNSAuth.token_ns hash valid_name nc s name = Some ns -> ns_facts a ns
+    | NNS.UpdateSOA name _ _ _ _ _ | NNS.Renew name _ =>
+        forall ns, NNS.get_ns hash s name = Some ns -> ns_facts a ns
+    | NNS.Transfer _ tok => forall ns, NNS.get_ns hash s tok = Some ns -> ns_facts a ns
+    | NNS.SetAdmin name adm =>
+        (forall ns, NNS.get_ns hash s name = Some ns -> ns_facts a ns) /\
+        arg_princ a 1 = ob adm /\ (adm = None -> existsb (Nat.eqb 1) (a_null a) = true)
+    | NNS.Register name owner _ _ _ _ _ =>
+        arg_princ a 1 = ob owner /\ a_shallow a = negb (2 <? NNSAuth.level name)%nat /\
+        (forall p, NNS.get_ns hash s (NNSAuth.parent_name name) = Some p -> ns_facts a p)
+    | _ => True
+    end.
+
+  Lemma witnessed_nil c : witnessed c [] = false.
+  Proof. reflexivity. Qed.
+
+  (** [may_admin] is [RNameAdmin], [owner_wit] is [RNameOwner]. *)
+  Lemma may_admin_req c a now rj ns :
+    ns_facts a ns -> NNSBase.may_admin (to_nnsctx c a now rj) ns = eval_req c a RNameAdmin.
+  Proof.
+    intros [Ho Ha]. unfold NNSBase.may_admin. cbn [eval_req]. rewrite Ho, Ha.
+    destruct (NNS.ns_owner ns) as [o|]; cbn [ob].
+    - destruct (length o =? 0)%nat; [apply nns_cmt_sound|].
+      rewrite nns_wit_sound. f_equal.
+      destruct (NNS.ns_admin ns) as [ad|]; cbn [ob]; [apply nns_wit_sound|reflexivity].
+    - cbn [length Nat.eqb]. apply nns_cmt_sound.
+  Qed.
+
+  Lemma owner_wit_req c a now rj ns :
+    ns_facts a ns -> NNSAuth.owner_wit (to_nnsctx c a now rj) ns = eval_req c a RNameOwner.
+  Proof.
+    intros [Ho _]. unfold NNSAuth.owner_wit. cbn [eval_req]. rewrite Ho.
+    destruct (NNS.ns_owner ns) as [o|]; cbn [ob]; [apply nns_wit_sound|reflexivity].
+  Qed.
+
+  (** The family's [authorised] implies the row's requirement. *)
+  Lemma authorised_req c a now rj s o k r :
+    In k (nns_keys o) -> nns_facts (to_nnsctx c a now rj) s a o ->
+    required k = Some r -> authorised (to_nnsctx c a now rj) s o = true -> eval_req c a r = true.
+  Proof.
+    intros Hk Hf Hr Ha.
+    destruct o as [name owner em rf rt ex tt|name em rf rt ex tt|to tok|name y|name adm|name ty d|name ty i d
+                  |name ty|name em rf rt ex tt|p| | | | | | | | | | | |];
+      cbn [nns_keys In] in Hk; try (destruct Hk; fail);
+      repeat (destruct Hk as [<-|Hk]; [vm_compute in Hr; injection Hr as <-|]); try (destruct Hk; fail);
+      cbn [NNSAuth.authorised] in Ha; cbn [nns_facts] in Hf.
+    - (* register *)
+      destruct Hf as (Hp & Hs & Hpar). apply andb_true_iff in Ha as [Ho Hd].
+      cbn [eval_req]. rewrite Hp, Hs. destruct owner as [o|]; [|discriminate Ho]. cbn [ob].
+      rewrite nns_wit_sound in Ho. rewrite Ho. cbn [andb].
+      destruct (2 <? NNSAuth.level name)%nat; [|reflexivity]. cbn [negb orb].
+      destruct (NNS.get_ns hash s (NNSAuth.parent_name name)) as [p|] eqn:Ep; [|discriminate Hd].
+      rewrite (may_admin_req c a now rj p (Hpar p eq_refl)) in Hd. exact Hd.
+    - (* registerTLD *) rewrite nns_cmt_sound in Ha. exact Ha.
+    - (* transfer *)
+      destruct (NNS.get_ns hash s tok) as [ns|] eqn:En; [|discriminate Ha].
+      rewrite (owner_wit_req c a now rj ns (Hf ns eq_refl)) in Ha. exact Ha.
+    - (* renew/2 *)
+      destruct (NNS.get_ns hash s name) as [ns|] eqn:En; [|discriminate Ha].
+      rewrite (may_admin_req c a now rj ns (Hf ns eq_refl)) in Ha. exact Ha.
+    - (* renew/1 *)
+      destruct (NNS.get_ns hash s name) as [ns|] eqn:En; [|discriminate Ha].
+      rewrite (may_admin_req c a now rj ns (Hf ns eq_refl)) in Ha. exact Ha.
+    - (* setAdmin *)
+      destruct Hf as (Hn & Hp & Hnull).
+      destruct (NNS.get_ns hash s name) as [ns|] eqn:En; [|discriminate Ha].
+      apply andb_true_iff in Ha as [Ho Hadm].
+      rewrite (owner_wit_req c a now rj ns (Hn ns eq_refl)) in Ho.
+      change (eval_req c a (RAnd (ROr (RArgNull 1) (RAddr 1)) RNameOwner))
+        with ((existsb (Nat.eqb 1) (a_null a) || witnessed c (arg_princ a 1)) && eval_req c a RNameOwner).
+      rewrite Ho, andb_true_r. destruct adm as [ad|].
+      + rewrite Hp. cbn [ob]. rewrite nns_wit_sound in Hadm.
+        rewrite Hadm. apply orb_true_r.
+      + rewrite (Hnull eq_refl). reflexivity.
+    - (* addRecord *)
+      destruct (NNSAuth.token_ns hash valid_name _ s name) as [ns|] eqn:En; [|discriminate Ha].
+      rewrite (may_admin_req c a now rj ns (Hf ns eq_refl)) in Ha. exact Ha.
+    - (* setRecord *)
+      destruct (NNSAuth.token_ns hash valid_name _ s name) as [ns|] eqn:En; [|discriminate Ha].
+      rewrite (may_admin_req c a now rj ns (Hf ns eq_refl)) in Ha. exact Ha.
+    - (* deleteRecords *)
+      destruct (NNSAuth.token_ns hash valid_name _ s name) as [ns|] eqn:En; [|discriminate Ha].
+      rewrite (may_admin_req c a now rj ns (Hf ns eq_refl)) in Ha. exact Ha.
+    - (* updateSOA *)
+      destruct (NNS.get_ns hash s name) as [ns|] eqn:En; [|discriminate Ha].
+      rewrite (may_admin_req c a now rj ns (Hf ns eq_refl)) in Ha. exact Ha.
+    - (* setPrice *) rewrite nns_cmt_sound in Ha. exact Ha.
+  Qed.
+
+  Lemma inert_NNS s c a now rj o k r :
+    In k (nns_keys o) -> nns_facts (to_nnsctx c a now rj) s a o ->
+    required k = Some r -> eval_req c a r = false ->
+    exists v, nnsstep s (to_nnsctx c a now rj, o) = (s, v, []) /\
+      (v = VFault \/ (v = VBool false /\ exists t n, o = NNS.Transfer t n)).
+  Proof.
+    intros Hk Hf Hr He.
+    assert (Hna : authorised (to_nnsctx c a now rj) s o = false).
+    { destruct (authorised (to_nnsctx c a now rj) s o) eqn:E; [|reflexivity].
+      rewrite (authorised_req c a now rj s o k r Hk Hf Hr E) in He. discriminate He. }
+    destruct (nnsstep s (to_nnsctx c a now rj, o)) as [[s' v] ns] eqn:E.
+    destruct (NNSAuth.step_unauthorised_inert hash valid_name valid_data str_ok _ _ _ _ _ _ E Hna)
+      as (-> & -> & Hv).
+    exists v. split; [reflexivity|]. destruct Hv as [->|[-> Ht]]; auto.
+  Qed.
+End NNSSec.
+
+(** * update of every contract (Model/Migration.v): the gate of [Update] *)
+From Verif Require Model.MigStore Model.Migration Proofs.Migration.
+Section UpdateSec.
+  Variable msaddr : Z -> list bytes -> bytes.
+  Variable stdacc : bytes -> option bytes.
+  Variable h160 : bytes -> bytes.
+  Variables prevN verN : Z.
+
+  Definition mc_of (k : contract) : Migration.contract :=
+    match k with
+    | KAlphabet => Migration.CAlphabet | KAudit => Migration.CAudit | KBalance => Migration.CBalance
+    | KContainer => Migration.CContainer | KNeoFS => Migration.CNeoFS | KNeoFSID => Migration.CNeoFSID
+    | KNetmap => Migration.CNetmap | KNNS => Migration.CNNS | KProcessing => Migration.CProcessing
+    | KProxy => Migration.CProxy | KReputation => Migration.CReputation
+    end.
+
+  (** The chain as the invocation sees it, with the witnessed script hashes
+      of the abstract context. *)
+  Definition to_menv (c : ctx) (e0 : Migration.env) : Migration.env :=
+    Migration.mkEnv (Migration.e_height e0) (Migration.e_committee e0) (Migration.e_designated e0)
+      (wit_list c) (Migration.e_gas e0) (Migration.e_resolve_proxy e0) (Migration.e_netmap_nodes e0)
+      (Migration.e_netmap_ir e0) (Migration.e_payments_ok e0).
+
+  Lemma to_menv_sound c e0 h : Migration.witnessed (to_menv c e0) h = witnessed c h.
+  Proof. apply wit_list_sound. Qed.
+
+  (** The account the chain facts call committee / Inner Ring majority is
+      the one [Update] computes from the key lists of the environment. *)
+  Definition gate_facts (a : args) (k : contract) (e : Migration.env) : Prop :=
+    forall addr, Migration.gate_address msaddr (mc_of k) e = Halt addr ->
+      addr = match k with
+             | KNeoFS | KProcessing => ch_ir_committee (a_chain a)
+             | _ => ch_committee (a_chain a)
+             end.
+
+  Lemma inert_Update k c a e0 mgmt_ok data st r :
+    gate_facts a k (to_menv c e0) ->
+    required (k, "update", 3%nat) = Some r -> eval_req c a r = false ->
+    Migration.update_tx msaddr stdacc h160 prevN verN (mc_of k) (to_menv c e0) mgmt_ok data st = (st, false).
+  Proof.
+    intros Hg Hr He. unfold Migration.update_tx, Migration.update, Migration.gate.
+    destruct (Migration.gate_address msaddr (mc_of k) (to_menv c e0)) as [addr|] eqn:Ea; [|reflexivity].
+    cbn [obind]. rewrite to_menv_sound. rewrite (Hg addr Ea).
+    destruct k; vm_compute in Hr; injection Hr as <-; cbn [eval_req] in He; rewrite He; reflexivity.
+  Qed.
+End UpdateSec.
